@@ -454,8 +454,36 @@ def make_s1_program(rng, size=9):
     return progen.Program(PRELUDE + src, list(INPUTS), feats, 'c02')
 
 
+def make_wrap_program(rng, size=8):
+    """Programs for the function-wrapper checks: core / s1 statements, with or without conditional returns, the final
+    `return` dropped more often than not (falling off the end: `None`; no `return` at all: shape (a) of the wrapper)."""
+    if rng.random() < 0.5:
+        p = make_program(rng, size=size, rich=False, midreturn=rng.random() < 0.5)
+    else:
+        p = make_s1_program(rng, size=size)
+    src = p.source
+    feats = set(p.features) | {'wrap'}
+    if rng.random() < 0.6:
+        lines = src.rstrip('\n').split('\n')
+        assert lines[-1].startswith('    return ')
+        lines[-1] = '    pass'
+        src = '\n'.join(lines) + '\n'
+        feats.add('falls-off-end')
+        if 'return' not in src[len(PRELUDE):]:
+            feats.add('no-return')
+    return progen.Program(src, list(p.inputs), feats, 'c02')
+
+
 def programs(rng, n, size=10, profile='core'):
     made = 0
+    while made < n and profile == 'wrap':
+        p = make_wrap_program(rng, size=rng.randrange(max(3, size // 2), size + 1))
+        try:
+            compile(p.source, '<gen>', 'exec')
+        except SyntaxError:
+            continue
+        made += 1
+        yield p
     while made < n and profile == 's1':
         p = make_s1_program(rng, size=rng.randrange(max(3, size // 2), size + 1))
         try:
